@@ -1,4 +1,5 @@
 import Cuckoo.Props.C02
+import Cuckoo.Proofs.Stats
 /-!
 # C05 — size() and the derived statistics are exact whenever the table is quiescent
 
@@ -13,27 +14,31 @@ variable {κ ν : Type}
 
 /-- `size()` is the number of key-value pairs -/
 theorem size_eq_card (c : Cfg κ) (t : Table κ ν) (m : AMap κ ν) (hr : Rel c t m) : t.size = m.length := by
-  sorry
+  have h : t.size = t.sumCnt.toNat := rfl
+  rw [h, hr.count]
+  exact Int.toNat_natCast _
 
 /-- `empty()` iff there is no pair -/
 theorem empty_iff (c : Cfg κ) (t : Table κ ν) (m : AMap κ ν) (hr : Rel c t m) : (t.size = 0) ↔ m = [] := by
-  sorry
+  rw [size_eq_card c t m hr]
+  exact List.length_eq_zero_iff
 
 /-- `capacity()` = `bucket_count() * slot_per_bucket()` with `bucket_count() = 2^hashpower()`, and the bucket array
 really has that many cells -/
 theorem capacity_eq (c : Cfg κ) (t : Table κ ν) (h : Inv c t) :
     t.capacity c = 2 ^ t.hp * c.S ∧ t.cur.cells.size = t.capacity c := by
-  sorry
+  exact ⟨rfl, h.cur_wf.size⟩
 
 /-- `load_factor()` is `size()/capacity()` computed in double precision -/
 theorem load_factor_eq (c : Cfg κ) (t : Table κ ν) :
     t.lfBelow c = decide (lfOf t.size (t.capacity c) < t.mlf) := by
-  sorry
+  rfl
 
 /-- there are never more elements than slots -/
 theorem size_le_capacity [DecidableEq κ] (c : Cfg κ) (t : Table κ ν) (m : AMap κ ν) (h : Inv c t) (hr : Rel c t m)
     (hl : AllMig t) : t.size ≤ t.capacity c := by
-  sorry
+  rw [size_eq_card c t m hr, ← (capacity_eq c t h).2]
+  exact card_le_cells h hr hl
 
 /-- growth of the lock array keeps the sum of the counters -/
 theorem counters_move_with_growth (c : Cfg κ) (t : Table κ ν) (n : Nat) :
@@ -42,12 +47,18 @@ theorem counters_move_with_growth (c : Cfg κ) (t : Table κ ν) (n : Nat) :
 /-- a displacement hop changes no counter -/
 theorem displacement_keeps_sum (c : Cfg κ) (t t' : Table κ ν) (fr to : PathRec) (h : hop c t fr to = some t') :
     t'.sumCnt = t.sumCnt := by
-  sorry
+  unfold hop at h
+  split at h
+  · split at h
+    · cases h; rfl
+    · cases h
+  · cases h
 
 /-- after any sequence of operations, `size()` is the number of pairs of the abstract map the run ends with -/
 theorem size_exact_after_any_run [DecidableEq κ] (c : Cfg κ) (ops : List (C02.Op κ ν)) (s : C02.MT κ ν) (m : AMap κ ν)
     (hg : C02.Good c s m) :
     ∃ m', C02.specRun s.locked m ops (C02.run c s ops).2 m' ∧ (C02.run c s ops).1.t.size = m'.length := by
-  sorry
+  obtain ⟨m', h1, h2⟩ := C02.seq_refines c ops s m hg
+  exact ⟨m', h1, size_eq_card c _ m' h2.2.1⟩
 
 end Cuckoo.Props.C05
